@@ -344,7 +344,9 @@ def oracle_C13(spec, tr):
             # ... the motor's net torque while held being its characteristic at standstill minus its load torque,
             # recomputed here from the documented law (not read from the recorded torque)
             m = tr['motor']
-            if not dirty_here and deadzone_margin(m, D0) > 1e-9:
+            # (only where the duty cycle in force is the one the held torque was recorded under: after the user has set another
+            # duty cycle by hand between two runs, "the motor's net torque" of the property is the recorded one, judged above)
+            if not dirty_here and deadzone_margin(m, D0) > 1e-9 and E[0]['pwm'][j - 1] == D0:
                 # the load torque on the motor at the held instant, recomputed from the user's load function at the recorded
                 # state and time and carried upstream through the matings
                 last_i = tr['n'] - 1
